@@ -2139,7 +2139,11 @@ func (x *Exec) binop(in *ssa.BinOp, a, b Value) Value {
 		}
 		return NewTerm(op, args...)
 	}
-	if commutative(in.Op) && a.Key() > b.Key() {
+	isString := false
+	if bt, ok := in.X.Type().Underlying().(*types.Basic); ok && bt.Info()&types.IsString != 0 {
+		isString = true // concatenation keeps its order
+	}
+	if commutative(in.Op) && !isString && a.Key() > b.Key() {
 		a, b = b, a
 	}
 	return NewTerm(op, a, b)
